@@ -9,8 +9,10 @@ Local Open Scope nat_scope.
    context happens to take - nothing is discarded that the path did not create (no frame of the
    wrong kind, no missing capture / auto-escape entry / operand), the run never leaves the
    stream, every end (end of stream, Return) is reached with scope, capture depth and
-   auto-escape depth as at entry and NO operand left, and the shape at a program point -
-   operand stack included, exactly - does not depend on the path that led there.  The checker
+   auto-escape depth as at entry and NO operand left (after `extends`: exactly the one discard
+   capture the hand-over to the parent ends), and the shape at a program point - operand stack
+   included, exactly - does not depend on the path that led there, up to whether a conditional
+   `extends` has happened ([core]).  The checker
    is extracted and run on the REAL instruction streams the current compiler produces. *)
 Theorem check_ann_sound : forall C A entries, check_ann C A entries = true -> balanced C entries.
 Proof. exact check_ann_sound_proof. Qed.
@@ -55,7 +57,7 @@ Definition before_fix : list instr :=
   [IStack 0 1; IPushLoop false; IIterate 9; IStack 1 0; IPushWith; IJump 9; IPopFrame; IJump 2; IStack 0 0; IPopLoopFrame 0].
 Definition after_fix : list instr :=
   [IStack 0 1; IPushLoop false; IIterate 9; IStack 1 0; IPushWith; IPopFrame; IJump 9; IPopFrame; IJump 2; IPopLoopFrame 0].
-Example break_in_with_refuted_before_fix : verdict before_fix [(0, shape0)] = Some 2.
+Example break_in_with_refuted_before_fix : verdict before_fix [(0, shape0)] = Some 9.   (* the PopLoopFrame that would pop the with frame *)
 Proof. vm_compute. reflexivity. Qed.
 Example break_in_with_accepted_after_fix : verdict after_fix [(0, shape0)] = None.
 Proof. vm_compute. reflexivity. Qed.
@@ -102,6 +104,19 @@ Proof.
     + (* 13 PopLoopFrame returns to 9 *) eapply (rstep_intro _ 13); [reflexivity|reflexivity|left; reflexivity].
   - split; reflexivity.
 Qed.
+
+(* `extends`: LoadBlocks silences the rest of the template with a discard capture which the hand-over to the
+   parent's instructions ends.  `before{% if c %}{% extends "x" %}{% endif %}after` (a conditional extends, as in the
+   repository's fixture err_extends_actually_not.txt) is accepted - two shapes at the join, equal up to [core];
+   the same with an EndCapture-less capture left open is not. *)
+Definition cond_extends : list instr :=
+  [IStack 0 0; IStack 0 1; IJumpIfFalse 5; IStack 0 1; ILoadBlocks; IStack 0 0].
+Example cond_extends_accepted : verdict_rec cond_extends [(0, shape0)] = None.
+Proof. vm_compute. reflexivity. Qed.
+Example cond_extends_two_shapes : map (@length shape) (annotate cond_extends [(0, shape0)]) = [1; 1; 1; 1; 1; 2].
+Proof. vm_compute. reflexivity. Qed.
+Example open_capture_rejected : verdict_rec [IBeginCapture; IStack 0 0] [(0, shape0)] = Some (0, 1).
+Proof. vm_compute. reflexivity. Qed.
 
 Print Assumptions check_ann_sound.
 Print Assumptions verdict_sound.
